@@ -80,11 +80,61 @@ def _mand(pat, g):
     return g not in R2.toplevel_optional_groups(pat)
 
 
+def _decomposition(ex, m, st):
+    """Linear decomposition contract: when the top level of the pattern is a sequence of items, a match is the
+    concatenation of one piece per item (look-arounds / anchors take no bytes); the piece of a fixed-width item has that
+    width, and a top-level capture group's span is its piece.  Emitted once per (match iterator, index term)."""
+    import re._parser as P
+
+    it, i = m.attrs["it"], m.attrs["i"]
+    a = it.attrs
+    key = ("decomp", i.get_id())
+    if key in a:
+        return a[key]
+    items, _ = R2.decompose(a["pat"])
+    parsed = R2.parse(a["pat"])
+    bounds = [a["MS"][i]]
+    facts = []
+    gmap = {}
+    for j, (gid, lang, (op, av)) in enumerate(items):
+        lo, hi = P.SubPattern(parsed.tree.state, [(op, av)]).getwidth()
+        if j == len(items) - 1:
+            nxt = a["ME"][i]
+        elif lo == hi:
+            nxt = bounds[-1] + lo
+        else:
+            arr = a.setdefault(("B", j), fresh(f"B{j}", ArrII))
+            nxt = arr[i]
+        if lo == hi:
+            facts.append(nxt == bounds[-1] + lo)
+        else:
+            facts.append(z3.And(nxt >= bounds[-1] + lo, nxt <= bounds[-1] + min(hi, 10**9)))
+        if gid is not None:
+            gmap[gid] = (bounds[-1], nxt)
+        bounds.append(nxt)
+    gd = m.attrs.get("guard")
+    f = z3.And(*facts) if facts else z3.BoolVal(True)
+    st.fact(z3.Implies(gd, f) if gd is not None else f)
+    a[key] = gmap
+    ex.assumed.add("regex linear decomposition: a match of a top-level sequence is the concatenation of one piece per item, fixed-width items take exactly their width, a top-level group's span is its piece")
+    return gmap
+
+
 def match_span(ex, m, g, st):
     it, i = m.attrs["it"], m.attrs["i"]
     a = it.attrs
     if g == 0:
         return a["MS"][i], a["ME"][i], z3.BoolVal(True)
+    if a["pat"] is not None and not getattr(st, "in_binder", 0):
+        try:
+            gmap = _decomposition(ex, m, st)
+        except Exception:  # noqa: BLE001
+            gmap = {}
+        if g in gmap and _mand(a["pat"], g):
+            GS, GE, GP = _group_arrays(ex, it, g)
+            gd = m.attrs.get("guard")
+            f = z3.And(GS[i] == gmap[g][0], GE[i] == gmap[g][1])
+            st.fact(z3.Implies(gd, f) if gd is not None else f)
     if a["pat"] is None:
         raise Unsupported("group access with a non-constant pattern")
     if g > R2.parse(a["pat"]).ngroups:
